@@ -18,7 +18,7 @@ from ..emumon import insert_heralds
 from .c03 import random_state
 from .c05 import make_circuit, make_post_selection
 from ..gen import pick_seed
-from .common import drain_into, merge_stats, setup
+from .common import drain_into, merge_stats, setup, too_big
 
 PROPERTY = "C07"
 RULE = ("seeded random configurations: circuit/heralds/input (as C05) x detector (efficiency in {1,.9,.5,0}, p_dark in "
@@ -67,7 +67,8 @@ def run_config(ctx, lw, rng, cfg=None):
     h = c.heralds
     hph = sum(h["input"].values())
     u = c.U_full
-    if u.shape[0] - c.n_modes > 3 or k == 0 or k > 5:
+    if u.shape[0] - c.n_modes > 3 or k == 0 or k > 5 or too_big(c, 11, 3):
+        ctx.count("skipped_size")
         return
     nph = int(rng.integers(1, 4))
     if nph + hph > 4:
